@@ -2,7 +2,7 @@
 //! is bisected through the real instruction to the accept/reject boundary, a window and a grid are
 //! executed, and every verdict is judged two-sidedly by the exact reference health (health.rs).
 
-use super::histcommon::spec_b6;
+use super::histcommon::{spec_b6, spec_b9};
 use super::Tier;
 use crate::act::{self, Action};
 use crate::evidence::{Found, Outcome};
@@ -593,6 +593,76 @@ pub fn configs(tier: Tier) -> Vec<Cfg> {
     v
 }
 
+/// Venue withdrawals are withdrawals: collateral held in a Drift-backed bank (deposited through the real
+/// `drift_deposit`, against the harness's stand-in for the Drift program, venue.rs), debts of several sizes in an
+/// ordinary bank, and `drift_withdraw` for amounts bisected to the accept / reject boundary plus a grid and the
+/// withdraw-all form; whatever is accepted must leave the reference initial health non-negative.
+fn drift_gate(found: &mut Vec<Found>, classes: &mut BTreeMap<String, u64>) -> u64 {
+    let mut bd = spec_b6();
+    bd.label = "C04DV".into();
+    bd.mint = MintSpec::spl("c04dv", 6);
+    bd.config.asset_weight_init = I80F48::from_num(0.8);
+    bd.config.asset_weight_maint = I80F48::from_num(0.9);
+    let (w, mut s) = build_world(&WorldSpec::new("C04D", vec![bd, spec_b9()], &["u0", "seeder"]));
+    crate::venue::make_drift_bank(&mut s, &w, 0);
+    let auth = w.users[0].authority;
+    let mut execs = 0u64;
+    let seeded = act::apply(&w, &mut s, &Action::Deposit { u: 1, b: 1, amt: 1_000_000_000_000, up_to_limit: None }).committed;
+    let dep = crate::venue::deposit_tx(&w, &s, 0, 0, 1_000_000_000, auth);
+    if !seeded || !process_tx(&mut s, &dep).ok() {
+        *classes.entry("drift_gate:unbuildable".into()).or_insert(0) += 1;
+        return 0;
+    }
+    let acct = w.users[0].account;
+    let one9 = 1_000_000_000u64;
+    for debt in [0u64, one9 / 10, one9, 3 * one9, 5 * one9] {
+        let mut s1 = s.clone();
+        if debt > 0 && !act::apply(&w, &mut s1, &Action::Borrow { u: 0, b: 1, amt: debt }).committed {
+            *classes.entry("drift_gate:borrow_refused".into()).or_insert(0) += 1;
+            continue;
+        }
+        let mut judge = |amt: u64, all: bool| -> bool {
+            let mut t = s1.clone();
+            let r = process_tx(&mut t, &crate::venue::withdraw_tx(&w, &s1, 0, 0, amt, all, auth));
+            execs += 1;
+            *classes.entry(format!("drift_gate:{}:{}", if all { "withdraw_all" } else { "withdraw" }, crate::svm::err_name(r.code()))).or_insert(0) += 1;
+            if r.ok() {
+                let h = health::health(&t, &acct, Req::Initial).unwrap();
+                if h.engine_err.is_none() && h.health() < -h.allow.clone() {
+                    found.push(Found {
+                        clause: "C04.accepted_implies_healthy".into(),
+                        sig: format!("drift_withdraw:debt{debt}"),
+                        detail: format!("drift_withdraw of {} (all: {all}) with a debt of {debt} accepted but reference initial health is {:.9} (assets {:.6}, liabilities {:.6})", amt, rf::qf64(&h.health()), rf::qf64(&h.assets), rf::qf64(&h.liabs)),
+                        replay: json!({"model": "C04drift", "debt": debt, "amount": amt, "all": all}),
+                    });
+                }
+            }
+            r.ok()
+        };
+        // bisection of the boundary between 1 and the whole deposit
+        let (mut lo, mut hi) = (0u64, 1_000_000_001u64);
+        while hi - lo > 1 {
+            let mid = lo + (hi - lo) / 2;
+            if judge(mid, false) {
+                lo = mid;
+            } else {
+                hi = mid;
+            }
+        }
+        for d in [-2i64, -1, 0, 1, 2] {
+            let x = lo as i64 + d;
+            if x > 0 {
+                judge(x as u64, false);
+            }
+        }
+        for x in [1u64, 1_000, 250_000_000, 500_000_000, 999_999_999, 1_000_000_000] {
+            judge(x, false);
+        }
+        judge(0, true);
+    }
+    execs
+}
+
 /// Isolated-tier exclusivity: an account with ample collateral owes bank X and asks to borrow from bank Y, for every
 /// ordered pair (X, Y) of three isolated-tier and three ordinary banks (so that the isolated bank's address lies above
 /// and below the other's - positions are kept sorted by bank address). Whatever is accepted must leave an
@@ -694,6 +764,10 @@ pub fn run(tier: Tier) -> Outcome {
         o.found.extend(r.found);
     }
     execs += isolated_matrix(&mut o.found, &mut classes);
+    execs += drift_gate(&mut o.found, &mut classes);
+    if !classes.iter().any(|(k, v)| k.starts_with("drift_gate:withdraw:ok") && *v > 0) || !classes.iter().any(|(k, v)| k.starts_with("drift_gate:withdraw:6009") && *v > 0) {
+        o.machinery.push("vacuity guard: the Drift withdrawal gate never accepted / never refused for health".into());
+    }
     if classes.contains_key("isolated_matrix:only_one_address_order") || !classes.contains_key("isolated_matrix:with_isolated_debt:refused") || !classes.contains_key("isolated_matrix:ordinary_debts:accepted") {
         o.machinery.push("vacuity guard: the isolated-tier matrix did not see both address orders, a refusal and an ordinary acceptance".into());
     }
